@@ -248,11 +248,11 @@ def f_tail(k):
     return k << 24
 
 
-def make_cfg(cache=True, default_ext=False, disable_ims=False, limit=0, server=False, wait_close=0, files=FILES, retry=True):
+def make_cfg(cache=True, default_ext=False, disable_ims=False, limit=0, server=False, wait_close=0, files=FILES, retry=True, sndbuf=0):
     return cfg(cache=cache, default_ext=default_ext, disable_ims=disable_ims,
                handlers=HANDLERS + ([HBIG] if files is not FILES else []), files=[xl(xb(p), xb(c)) for p, c in files],
                readers=[xl(xb(p), xn(l)) for p, l in READERS], limit=xn(limit), server=xn(1 if server else 0),
-               wait_close=xn(wait_close), report=[xb(r) for r in REPORT], streams=STREAMS, retry=xn(1 if retry else 0))
+               wait_close=xn(wait_close), report=[xb(r) for r in REPORT], streams=STREAMS, retry=xn(1 if retry else 0), sndbuf=xn(sndbuf))
 
 
 def R(method, target, headers=(), body=b"", early=0, flags=0):
@@ -411,11 +411,11 @@ def generate(rng, tier):
                                    R(b"POST", b"/h/nm"), R(b"GET", b"/f.txt")], "corpus-bodyless-with-body"))
     cases.append(conn_case(plain, [R(b"GET", b"/h/te"), R(b"GET", b"/f.txt"), R(b"HEAD", b"/h/te"), R(b"GET", b"/h/te", [(b"range", b"bytes=4-10")]), R(b"GET", b"/f.txt")], "corpus-transfer-encoding"))
     # responses larger than a stream_body chunk / than what a socket takes in one write, whole, ranged, coded and streamed
-    mid = make_cfg(files=FILES_M)
+    mid = make_cfg(files=FILES_M, sndbuf=4096)      # the server's socket takes a few kilobytes per write
     cases.append(conn_case(mid, [R(b"GET", b"/m.bin"), R(b"GET", b"/f.txt"), R(b"HEAD", b"/m.bin"), R(b"GET", b"/m.bin", [(b"range", b"bytes=65535-65537")]),
                                  R(b"GET", b"/s/big.bin"), R(b"HEAD", b"/s/big.bin"), R(b"GET", b"/s/big.bin", [(b"range", b"bytes=65530-69999")]),
                                  R(b"GET", b"/m.bin", [(b"accept-encoding", b"gzip")]), R(b"GET", b"/h/big"), R(b"GET", b"/f.txt")], "corpus-large"))
-    huge = make_cfg(files=FILES_HUGE)
+    huge = make_cfg(files=FILES_HUGE, sndbuf=rng.choice([0, 4096]))
     cases.append(conn_case(huge, [R(b"GET", b"/huge.bin"), R(b"GET", b"/f.txt"), R(b"HEAD", b"/huge.bin"), R(b"GET", b"/f.txt")], "corpus-huge"))
     cases.append(conn_case(huge, [R(b"GET", b"/s/huge.bin"), R(b"GET", b"/f.txt"), R(b"GET", b"/s/huge.bin", [(b"range", b"bytes=1299990-1400000")]), R(b"GET", b"/f.txt")], "corpus-huge"))
     # heads larger than the 2 KiB buffer of send_response (a long handler header) are in /h/long below; request heads on the
@@ -439,7 +439,8 @@ def generate(rng, tier):
         limit = rng.choice([0] * 5 + [4, 5, 6])
         dext = rng.random() < 0.3
         files = FILES_M if rng.random() < 0.08 else FILES
-        c = make_cfg(cache=rng.random() < 0.7, default_ext=dext, disable_ims=rng.random() < 0.15, limit=limit, files=files)
+        c = make_cfg(cache=rng.random() < 0.7, default_ext=dext, disable_ims=rng.random() < 0.15, limit=limit, files=files,
+                     sndbuf=4096 if files is FILES_M or rng.random() < 0.2 else 0)
         # with the default extensions an Origin header makes the rest of the history unpredicted (CORS, C13): keep it rare there
         reqs = rand_sequence(rng, n, origin_p=0.15 if dext else 1.0)
         if files is FILES_M:
